@@ -262,6 +262,7 @@ var c11LinePool = []string{
 	"||example.org^$domain=example.com|~example.net,unknownmodifier=1,third-party,script", // a long rejected line
 	"@@||example.org^$elemhide,popup,domain=example.com|example.net|example.org|a.com", // rejected: popup on an exception
 	"\u00a0||nbsp.example^\u00a0", "\f||formfeed.example^", "\u2003a.com\u2003", "0.0.0.0 example.org\u0085", "\v##.vt", // Unicode blanks at the edges
+	"\xa0||latin1.example^", "\x85||nel.example^", "\xbf0.0.0.0 example.org", // first byte is a UTF-8 continuation byte
 	"||example.org^$dnsrewrite=1.2.3.4", "||example.org^$client='Frank\\'s laptop'", "/regex[0-9]+/", "  ||trimmed.example^  ",
 }
 
